@@ -156,6 +156,9 @@ impl Check for ControllerExt {
     fn components(&self) -> serde_json::Value {
         serde_json::json!({"real": ["examples/timelock-controller (from source): schedule_op, execute_op, cancel_op, update_delay, roles", "timelock storage", "access_control"], "stub": ["Target (call counter, scripted trap)", "Wallet"]})
     }
+    fn clock_step(&self, n: u32) -> Option<Step> {
+        Some(Step::Advance { n })
+    }
     fn dup_ok(&self, _s: &Step) -> bool {
         true
     }
